@@ -2,5 +2,5 @@ From Coq Require Import Extraction ExtrOcamlBasic.
 From Cddl Require Import Fmt.Render Fmt.LitParse Fmt.Oracle Comments.Merge Comments.Lex.
 Extraction Language OCaml.
 (* path relative to the directory make runs in (/verif/coq) *)
-Extraction "../oracle/gen/fmt_model.ml" lit_line occur_line tag_line ctl_line marked_line cut_line rangeop_line
+Extraction "../oracle/gen/fmt_model.ml" lit_line occur_line tag_line ctl_line marked_line cut_line rangeop_line type1_line
   merge_render lex_comments_render.
